@@ -33,6 +33,10 @@ func runC01(env *lib.Env, rep *lib.Report) {
 	for _, seed := range []string{"empty", "t1x8-upper-deleted", "interleaved"} {
 		cfgs = append(cfgs, histCfg{Name: "leaf3-int3/" + seed, Opt: small, Seed: seed, Alpha: fullAlpha, Depth: d, FinalReopen: true})
 	}
+	// statements on the oldest and the newest table of a catalog whose page table has split, with timer flushes
+	// in between (a root change of an old table then touches a clean page-table leaf)
+	cfgs = append(cfgs, histCfg{Name: "real/catalog-split/c0+c7+ticks", Opt: real, Seed: "catalog-split",
+		Alpha: alphaOpt{Tables: []string{"c0", "c7"}, Inserts: []int{1, 9}, Updates: true, Deletes: true, FewDeletes: true}, Depth: d, TickChoice: true, FinalReopen: true})
 	// deeper, with a two-table alphabet, from the empty database
 	cfgs = append(cfgs, histCfg{Name: "real/empty/deep", Opt: real, Seed: "empty", Alpha: twoAlpha, Depth: d + 1, FinalReopen: true})
 	rep.Bounds["depth"] = d
